@@ -187,10 +187,20 @@ func (t *Ty) render(canon bool) string {
 // type; a variable may be bound to anything (incl. bot and maybe) but every
 // occurrence must be tyEq-equal; a non-variable pattern needs the same
 // constructor.
-func match(p, t *Ty, s map[string]*Ty) bool {
+func match(p, t *Ty, s map[string]*Ty) bool { return matchM(p, t, s, nil) }
+
+// matchM also reports (mixed) whether a variable met two tyEq-equal types
+// whose object fields are in different orders.
+func matchM(p, t *Ty, s map[string]*Ty, mixed *bool) bool {
 	if p.K == KVar {
 		if b, ok := s[p.Var]; ok {
-			return Eq(b, t)
+			if Eq(b, t) {
+				if mixed != nil && !EqPos(b, t) {
+					*mixed = true
+				}
+				return true
+			}
+			return false
 		}
 		s[p.Var] = t
 		return true
@@ -200,16 +210,16 @@ func match(p, t *Ty, s map[string]*Ty) bool {
 	}
 	switch p.K {
 	case KList, KMaybe:
-		return match(p.El, t.El, s)
+		return matchM(p.El, t.El, s, mixed)
 	case KMap:
-		return match(p.Key, t.Key, s) && match(p.El, t.El, s)
+		return matchM(p.Key, t.Key, s, mixed) && matchM(p.El, t.El, s, mixed)
 	case KObj:
 		if len(p.Fs) != len(t.Fs) {
 			return false
 		}
 		for _, f := range p.Fs {
 			g, i := t.Field(f.Name)
-			if i < 0 || !match(f.T, g, s) {
+			if i < 0 || !matchM(f.T, g, s, mixed) {
 				return false
 			}
 		}
